@@ -1035,13 +1035,13 @@ func (w *world) genConc(r *gen.Rand) concIn {
 	}
 	k := r.Range(1, 3)
 	for i := 0; i < k; i++ {
-		x := r.Intn(10)
+		x := r.Intn(20)
 		switch {
-		case x < 7:
+		case x < 11:
 			in.Callers = append(in.Callers, reqIn{Kind: "control", Op: []int32{1, 2, 3, 4, 6}[r.Intn(5)]})
-		case x < 8:
+		case x < 12:
 			in.Callers = append(in.Callers, reqIn{Kind: "control", Op: []int32{0, 5}[r.Intn(2)]})
-		case x < 9:
+		case x < 17: // a teardown queued behind the holder (and behind the callers before it)
 			in.Callers = append(in.Callers, reqIn{Kind: "teardown", Force: r.Chance(1, 2)})
 		default:
 			in.Callers = append(in.Callers, reqIn{Kind: "destroy", Force: r.Chance(1, 2), Allow: r.Chance(1, 2)})
@@ -1224,6 +1224,24 @@ func main() {
 		cases = append(cases, wrap(w.caseConc(concIn{Scenario: "force-deadlock", Pre: []int32{6},
 			Holder: reqIn{Kind: "control", Op: 1}, Callers: []reqIn{{Kind: "control", Op: 3}}, Gate: "before_CONFIGURE",
 			Faults: faults{Hooks: []string{"before_GO_ERROR"}}})))
+		// 0b. a request queued behind a state-changing operation must see the state it leaves: two
+		// overlapped teardowns / destroys, and teardowns queued behind CONFIGURE / START_ACTIVITY
+		for _, in := range []concIn{
+			{Pre: []int32{6}, Holder: reqIn{Kind: "teardown", Force: true}, Gate: "DESTROY",
+				Callers: []reqIn{{Kind: "teardown", Force: true}}},
+			{Pre: []int32{6, 3}, Holder: reqIn{Kind: "destroy", Force: true}, Gate: "leave_CONFIGURED",
+				Callers: []reqIn{{Kind: "destroy", Force: true}, {Kind: "teardown", Force: true}}},
+			{Pre: []int32{6}, Holder: reqIn{Kind: "control", Op: 3}, Gate: "leave_DEPLOYED",
+				Callers: []reqIn{{Kind: "teardown"}}},
+			{Pre: []int32{6}, Holder: reqIn{Kind: "control", Op: 3}, Gate: "enter_CONFIGURED",
+				Callers: []reqIn{{Kind: "teardown", Force: true}, {Kind: "destroy"}}},
+			{Pre: []int32{6, 3}, Holder: reqIn{Kind: "control", Op: 1}, Gate: "before_START_ACTIVITY",
+				Callers: []reqIn{{Kind: "teardown", Force: true}, {Kind: "teardown"}}},
+			{Pre: nil, Holder: reqIn{Kind: "control", Op: 6}, Gate: "leave_STANDBY",
+				Callers: []reqIn{{Kind: "control", Op: 3}, {Kind: "teardown"}}},
+		} {
+			cases = append(cases, wrap(w.caseConc(in)))
+		}
 		tPhase := time.Now()
 		// 1. exhaustive single events on a real Environment (6 states x 8 events x 6 outcomes)
 		fe := fsmEnv()
